@@ -5,7 +5,9 @@ from __future__ import annotations
 import ast
 import token as pytoken
 
-from vlib.core import AnalysisError, Report
+import os
+
+from vlib.core import REPO, AnalysisError, Report
 from vlib.guards import always_exits
 from vlib.match import FI, X, atoms, expand_use, has_call, nodes
 from vlib.srcindex import SourceIndex, attr_chain, const_str, unparse, walk_no_nested
@@ -422,6 +424,9 @@ def rule_source_map(rep: Report, tk) -> None:
 			r.skip(col, f.where, f'{col} is no longer `{offset} - <line start>`')
 			continue
 		ss = [x for x in ast.walk(v.right) if isinstance(x, ast.Call) and isinstance(x.func, ast.Attribute) and x.func.attr in ('rfind', 'find', 'index', 'rindex')]
+		if not ss:
+			r.skip(col, f.where, f'the line start of `{offset}` is no longer found with a search for the line break (another way of locating the line — a table of line starts, a counter — is not modelled)')
+			continue
 		own = [c for c in ss if len(c.args) == 3 and unparse(c.args[2]) == offset]
 		ok = bool(own) and all(c.func.attr in ('rfind', 'rindex') and const_str(c.args[0]) == '\n' for c in own)
 		fwd = sorted({unparse(c) for c in ss if c.func.attr in ('find', 'index')})
@@ -572,6 +577,7 @@ def run(rep: Report, tier: str) -> None:
 	rule_indent_state(rep, tz, tk)
 	rule_context_fresh(rep, tz)
 	rule_lexer_state(rep, idx)
+	rule_unary_minus(rep, idx)
 	rule_source_map(rep, tk)
 	rule_joined_span(rep, tk)
 
@@ -741,5 +747,239 @@ def rule_lexer_state(rep: Report, idx) -> None:
 				r.violate(o.key, (o.file, o.line), o.message, o.fragment)
 			else:
 				r.ok(o.key, (o.file, o.line))
+	# module- and class-level state of the tokenizer files (C04/global-state-inventory): a table of line starts keyed by id(source), a memo in a class body
+	scratch2 = Report('C04', rep.tier)
+	c04.rule_c(scratch2, idx)
+	for rule in scratch2.rules:
+		for o in rule.obligations:
+			if not any(p_ in o.key or p_ == o.file for p_ in (TOKEN_PY, TOKENIZER_PY)):
+				continue
+			n_ += 1
+			if o.status == 'violated':
+				r.violate(o.key, (o.file, o.line), o.message + ' — the spans / tokens of one source are then computed from what an earlier source left behind', o.fragment)
+			else:
+				r.ok(o.key, (o.file, o.line))
 	if n_ == 0:
 		r.ok('no-container-attributes', None, message='the lexer classes hold no container attribute')
+
+
+# ---- unary minus: the characters after `-` that make it a sign cover every operand start ---------------------------------------------------
+
+def _regex_first(pat: str) -> set[str] | None:
+	"""ASCII characters a match of the regular expression can start with (None: not computed)"""
+	import re._parser as sre  # type: ignore
+	import re._constants as K  # type: ignore
+	ascii_ = [chr(i) for i in range(32, 127)]
+
+	def cls_chars(items) -> set[str]:
+		out: set[str] = set()
+		neg = False
+		for k, v in items:
+			if k is K.NEGATE:
+				neg = True
+			elif k is K.LITERAL:
+				out.add(chr(v))
+			elif k is K.RANGE:
+				out |= {chr(i) for i in range(v[0], v[1] + 1)}
+			elif k is K.CATEGORY:
+				import re as _re
+				probe = {K.CATEGORY_WORD: r'\w', K.CATEGORY_DIGIT: r'\d', K.CATEGORY_SPACE: r'\s', K.CATEGORY_NOT_WORD: r'\W', K.CATEGORY_NOT_DIGIT: r'\D', K.CATEGORY_NOT_SPACE: r'\S'}.get(v)
+				if probe is None:
+					raise ValueError('category')
+				out |= {c for c in ascii_ if _re.fullmatch(probe, c)}
+		return set(ascii_) - out if neg else out & set(ascii_) | {c for c in out if c in ascii_}
+
+	def first(seq) -> tuple[set[str], bool]:
+		"""(first characters, nullable)"""
+		out: set[str] = set()
+		for k, v in seq:
+			if k is K.LITERAL:
+				return out | {chr(v)}, False
+			if k is K.NOT_LITERAL:
+				return out | (set(ascii_) - {chr(v)}), False
+			if k is K.ANY:
+				return out | set(ascii_), False
+			if k is K.IN:
+				return out | cls_chars(v), False
+			if k is K.BRANCH:
+				nullable = False
+				for br in v[1]:
+					f, n = first(br)
+					out |= f
+					nullable = nullable or n
+				if not nullable:
+					return out, False
+				continue
+			if k is K.SUBPATTERN:
+				f, n = first(v[3])
+				out |= f
+				if not n:
+					return out, False
+				continue
+			if k in (K.MAX_REPEAT, K.MIN_REPEAT):
+				f, n = first(v[2])
+				out |= f
+				if v[0] >= 1 and not n:
+					return out, False
+				continue
+			if k is K.AT:
+				continue
+			raise ValueError(str(k))
+		return out, True
+	try:
+		f, _ = first(list(sre.parse(pat)))
+		return f
+	except Exception:
+		return None
+
+
+def rule_unary_minus(rep: Report, idx: SourceIndex, rule_id: str = 'C13/unary-minus-covers-every-operand-start') -> None:
+	"""The engine cannot tell a sign from a subtraction by its left context; the lexer decides by the character to the RIGHT of `-` and emits the
+	unary-minus token or the binary one. Whatever test it uses must say "sign" for every character an operand of `unary := (op_unary)? primary` can
+	start with — FIRST(primary), computed from data/syntax/py_gram.lark (string terminals by their first character, regexp terminals by the first-set
+	of the parsed regular expression, left recursion by fixpoint). A test that lists operand starts and forgets one (`[`, `{`) turns the derivable
+	sentences `-[1, 2][0]`, `x = -{}` into syntax errors, while `-a`, `-1`, `-(…)` keep working."""
+	from vlib import metagram
+	from vlib.norm import helper_closure
+	r = rep.rule(rule_id, 'the condition under which Lexer.parse_symbol emits the unary-minus token accepts every character in FIRST(primary) of py_gram.lark (`not white space` does; an enumeration of operand starts must contain letters, digits, quotes, `(`, `[`, `{`)', floor=1)
+	try:
+		rules = metagram.rules_of(metagram.read_grammar(open(os.path.join(REPO, 'data/syntax/py_gram.lark'), encoding='utf-8').read(), 'data/syntax/py_gram.lark'))
+	except Exception as e:
+		r.skip('first-set', ('data/syntax/py_gram.lark', 1), f'py_gram.lark not readable: {e}')
+		return
+	unary = next((k for k, v in rules.items() if any(x == ('symbol', 'op_unary') for x in _walk_tuple(v))), None)
+	if unary is None:
+		r.skip('first-set', ('data/syntax/py_gram.lark', 1), 'no rule of py_gram.lark uses op_unary')
+		return
+	body = rules[unary][1][2]
+	terms = body[1] if body[0] == 'terms' else [body]
+	operand = next((t[1] for t in terms if t[0] == 'symbol' and t[1] != 'op_unary'), None)
+	memo: dict[str, set[str]] = {}
+
+	def first_of(e, stack: tuple[str, ...]) -> tuple[set[str], bool]:
+		kind = e[0]
+		if kind == 'string':
+			txt = e[1][1:-1]
+			return ({txt[0]} if txt and not txt.startswith('\\') else set()), (txt == '')
+		if kind == 'regexp':
+			f = _regex_first(e[1][1:-1])
+			if f is None:
+				raise ValueError(f'regexp {e[1]}')
+			return f, False
+		if kind == 'symbol':
+			name = e[1]
+			if name in stack:
+				return set(), False  # left recursion: contributes nothing new on this path
+			if name not in rules:
+				raise ValueError(f'undefined symbol {name}')
+			return first_of(rules[name][1][2], stack + (name,))
+		if kind == 'terms_or':
+			out, nullable = set(), False
+			for a in e[1]:
+				f, n = first_of(a, stack)
+				out |= f
+				nullable = nullable or n
+			return out, nullable
+		if kind == 'terms':
+			out: set[str] = set()
+			for a in e[1]:
+				f, n = first_of(a, stack)
+				out |= f
+				if not n:
+					return out, False
+			return out, True
+		if kind == 'expr_opt':
+			f, _ = first_of(e[1][0], stack)
+			return f, True
+		if kind == 'expr_rep':
+			f, n = first_of(e[1][0], stack)
+			rep_ = next((x[1] for x in e[1][1:] if x[0] == 'repeat'), '')
+			return f, n or rep_ in ('*', '?')
+		raise ValueError(f'unknown node {kind}')
+	try:
+		need, _ = first_of(('symbol', operand), ())
+	except ValueError as e:
+		r.skip('first-set', ('data/syntax/py_gram.lark', 1), f'FIRST({operand}) not computed: {e}')
+		return
+	need = {c for c in need if 32 < ord(c) < 127}
+	if not ({'(', '[', '{', 'a', '0', '"'} <= need):
+		r.skip('first-set', ('data/syntax/py_gram.lark', 1), f'FIRST({operand}) = {"".join(sorted(need))[:60]} looks incomplete: not used')
+		return
+	tz = idx.mod(TOKENIZER_PY)
+	ps = tz.func('Lexer.parse_symbol')
+	d = default_definition(idx)
+	sets = {'analyze_white_spece': set(d.fields['white_space']), 'analyze_identifier': set(d.fields['identifier']), 'analyze_number': set(d.fields['number']), 'analyze_symbol': set(d.fields['symbol']),
+		'analyze_quote': {p_['open'][0] for p_ in d.fields['quote']}, 'analyze_comment': {p_['open'][0] for p_ in d.fields['comment']}}
+	everything = {chr(i) for i in range(33, 127)}
+
+	def accepted(e: ast.AST, g) -> set[str] | None:
+		"""characters for which the boolean expression e (over source[<pos>]) is true; None: not evaluated"""
+		if isinstance(e, ast.UnaryOp) and isinstance(e.op, ast.Not):
+			a = accepted(e.operand, g)
+			return None if a is None else everything - a
+		if isinstance(e, ast.BoolOp):
+			parts = [accepted(v, g) for v in e.values]
+			if isinstance(e.op, ast.Or):
+				known = [p_ for p_ in parts if p_ is not None]
+				return set().union(*known) if len(known) == len(parts) else None
+			# and: bounds checks (`begin < len(source)`) do not restrict the character
+			known = [p_ for v, p_ in zip(e.values, parts) if not _is_bounds(v)]
+			if any(p_ is None for p_ in known):
+				return None
+			out = set(everything)
+			for p_ in known:
+				out &= p_
+			return out
+		if isinstance(e, ast.Call) and isinstance(e.func, ast.Attribute) and isinstance(e.func.value, ast.Name) and e.func.value.id == 'self':
+			if e.func.attr in sets:
+				return set(sets[e.func.attr]) & everything
+			h = g.cls.method(e.func.attr) if g.cls is not None else None
+			if h is not None:
+				rets = [n.value for n in ast.walk(h.node) if isinstance(n, ast.Return) and n.value is not None]
+				vals = [accepted(v, h) for v in rets if not (isinstance(v, ast.Constant) and v.value is False)]
+				return set().union(*vals) if vals and all(v is not None for v in vals) else None
+			return None
+		if isinstance(e, ast.Compare) and len(e.ops) == 1 and isinstance(e.left, ast.Subscript):
+			rhs = e.comparators[0]
+			if isinstance(rhs, ast.Constant) and isinstance(rhs.value, str):
+				if isinstance(e.ops[0], ast.Eq):
+					return {rhs.value}
+				if isinstance(e.ops[0], ast.In):
+					return set(rhs.value)
+				if isinstance(e.ops[0], ast.NotEq):
+					return everything - {rhs.value}
+				if isinstance(e.ops[0], ast.NotIn):
+					return everything - set(rhs.value)
+			if isinstance(rhs, (ast.Tuple, ast.List)) and all(isinstance(x, ast.Constant) and isinstance(x.value, str) for x in rhs.elts) and isinstance(e.ops[0], (ast.In, ast.NotIn)):
+				cs = {x.value for x in rhs.elts}
+				return cs if isinstance(e.ops[0], ast.In) else everything - cs
+		return None
+
+	def _is_bounds(v: ast.AST) -> bool:
+		return isinstance(v, ast.Compare) and any(isinstance(x, ast.Call) and isinstance(x.func, ast.Name) and x.func.id == 'len' for x in ast.walk(v))
+	sites = [c_ for c_ in nodes(ps.node, ast.Call) if unparse(c_.func).endswith('op_unary_minus')]
+	if not sites:
+		r.skip('unary-decision', ps.where, 'parse_symbol no longer emits Token.op_unary_minus')
+		return
+	for c_ in sites:
+		conds = [(a, p_) for a, p_ in atoms(ps.node, c_) if 'TokenTypes.Minus' not in unparse(a)]
+		got: set[str] | None = set(everything)
+		for a, p_ in conds:
+			s_ = accepted(a if p_ else ast.UnaryOp(op=ast.Not(), operand=a), ps)
+			if s_ is None:
+				got = None
+				break
+			got &= s_
+		if got is None:
+			r.skip('unary-decision', (TOKENIZER_PY, c_.lineno), f'the condition of the unary-minus token is not one this check evaluates: {[unparse(a)[:50] for a, _ in conds]}')
+			continue
+		missing = sorted(need - got)
+		r.check(not missing, 'unary-decision', (TOKENIZER_PY, c_.lineno), f'`-` becomes the unary-minus token only when the next character is one of a set that lacks {missing[:8]}, although an operand of `{unary}` can start with them (FIRST({operand}) from py_gram.lark): `-[1, 2][0]`, `x = -{{}}` are derivable and CPython parses UnaryOp(USub, …), but the lexer hands the parser a binary minus without left operand -> Errors.Syntax', unparse(c_)[:80])
+
+
+def _walk_tuple(t):
+	yield t
+	if isinstance(t, (tuple, list)):
+		for x in t:
+			if isinstance(x, (tuple, list)):
+				yield from _walk_tuple(x)
